@@ -3,7 +3,8 @@
 //     D dequeue_all   I try_mark_inactive   M try_mark_inactive_or_dequeue_all   A try_mark_active
 //     F wait for every producer to finish, then try_mark_active + dequeue_all (final drain)
 //   thread 0: the consumer runs the script; before D/I/M it sleeps while it is marked inactive
-//             (it is woken by the producer whose enqueue() returned true, or by its own A).
+//             (it is woken by the producer whose enqueue() returned true, or by its own A; once
+//             every producer has finished it reactivates itself with try_mark_active).
 //   threads 1..k: producer p enqueues items p.0, p.1, ...; `!wake p.j` when enqueue returned true.
 // The consumer logs every queue it is handed as `!batch a,b,c` (front first).
 #include <unifex/detail/atomic_intrusive_queue.hpp>
@@ -64,7 +65,11 @@ int main(int argc, char** argv) {
       for (int p = 1; p <= k; ++p) for (int j = 0; j < counts[p - 1]; ++j)
         dsched::name_value((std::uint64_t)(std::uintptr_t)&sh->items[p][j], intern("i" + std::to_string(p) + "." + std::to_string(j)));
       for (char op : script) {
-        if (op == 'D' || op == 'I' || op == 'M') dsched::block_until([&] { return !sh->asleep; });
+        if (op == 'D' || op == 'I' || op == 'M') {
+          // asleep: wait for a producer's wake-up; when no producer is left, reactivate ourselves
+          dsched::block_until([&] { return !sh->asleep || sh->producers_done == k; });
+          if (sh->asleep && q.try_mark_active()) sh->asleep = false;
+        }
         switch (op) {
           case 'D': dsched::action("batch %s", batch_str(q.dequeue_all()).c_str()); break;
           case 'I': if (q.try_mark_inactive()) sh->asleep = true; break;
